@@ -412,6 +412,31 @@ func c09Run(tp *core.Tape, e *core.Env) {
 			return
 		}
 	}
+	// an update that is refused (an update callback - config injection, Prometheus reload -
+	// fails) was not acknowledged: a restart resumes exactly the acknowledged A
+	if !e.Failed() {
+		copyDir(tmpl, d)
+		tm := newTM(d)
+		if err := tm.Load(); err != nil {
+			e.Undecided("Load before the refused update failed: %v", err)
+			return
+		}
+		tm.AddUpdateCallbacks(func(map[string][]*target.Target) error { return fmt.Errorf("prometheus reload failed (injected)") })
+		if err := tm.UpdateTargets(&shard.UpdateTargetsRequest{Targets: B}); err == nil {
+			e.Violate("refused-update-acknowledged", "", "an update whose callback failed was acknowledged")
+			return
+		}
+		e.Fault("update_callback_fails")
+		got, err := startFresh(d)
+		if err != nil {
+			e.Violate("start-fails", "fault=update_callback_fails", "after a refused update the next start fails: %v", err)
+			return
+		}
+		if got != wantA {
+			e.Violate("resumes-unacknowledged", "fault=update_callback_fails", "update B was refused (its reload callback failed) but the next start does not resume the acknowledged A:\n got %s\n   A %s", clip(got), clip(wantA))
+			return
+		}
+	}
 	// (iv) the write Load itself performs at start, cut at byte N
 	lp := []int{0, 1, sizeA / 2, sizeA - 1}
 	for _, n := range lp {
